@@ -4,11 +4,14 @@ harness-set names defined in lib/kani_sets.py."""
 PROPS = {
     'C02': {'units': ['U-VALVE'], 'level': 'proof',
             'assumptions': ['UTF-8 transcoding abstract (utf8 axioms)', 'bzip2/crc32 bodies assumed', 'network exchange outcome uninterpreted (a2s_exchange)']},
-    'C11': {'units': ['U-VALVE'], 'level': 'proof', 'assumptions': ['ValveProtocol::new (socket creation) assumed']},
-    'C13': {'units': ['U-VALVE', 'U-VARINT', 'U-BUF'], 'level': 'proof', 'assumptions': ['element sizes bounded by 256 bytes (axiom_elem_bound_any)']},
+    'C06': {'units': ['U-UNREAL'], 'level': 'proof',
+            'assumptions': ['encoding_rs decode and the text clean-up (colour/control stripping, NUL trim) are abstract pure functions', 'the statement run filing a key/value pair under mutators/rules is cut out (R24) and its effect assumed'],
+            'not_covered': ['HashSet/HashMap bookkeeping inside idiom_mar_record', 'Unreal2Protocol::new']},
+    'C11': {'units': ['U-VALVE', 'U-UNREAL'], 'level': 'proof', 'assumptions': ['ValveProtocol::new (socket creation) assumed']},
+    'C13': {'units': ['U-VALVE', 'U-VARINT', 'U-BUF', 'U-UNREAL', 'U-GAMES'], 'level': 'proof', 'assumptions': ['element sizes bounded by 256 bytes (axiom_elem_bound_any)']},
     'C07': {'units': ['U-GAMES'], 'level': 'proof', 'assumptions': ['UTF-8 transcoding abstract', 'Valve client contract imported from U-VALVE (a2s_exchange oracle)'],
             'not_covered': ['The Ship / Battalion 1944 conversions', 'Eco serde mapping', 'jc2m::query_with_timeout key/value part']},
-    'C01': {'units': ['U-BUF', 'U-UTIL', 'U-VARINT', 'U-VALVE', 'U-GAMES'], 'level': 'proof', 'assumptions': []},
+    'C01': {'units': ['U-BUF', 'U-UTIL', 'U-VARINT', 'U-VALVE', 'U-GAMES', 'U-UNREAL'], 'level': 'proof', 'assumptions': []},
     'C17': {
         'units': ['U-BUF', 'U-VARINT', 'U-UTIL'],
         'kani': 'C17',
